@@ -1,6 +1,6 @@
 (* C08 — The compaction floor only rises, and range reads below it are refused.
    Property theorems only: each is closed by `exact <lemma>` and followed by Print Assumptions. *)
-From KB Require Import Base.Cases Model.Coder Model.CompactSys Model.C08Cases Proofs.Coder Proofs.CompactFloor.
+From KB Require Import Base.Cases Model.Coder Model.CompactSys Model.C08Cases Proofs.Coder Proofs.CompactFloor Proofs.CompactFloorX.
 Local Open Scope N_scope.
 
 (* the floor (decoded <prefix>/compact_key, 0 when absent) never decreases along any history of
@@ -53,8 +53,49 @@ Theorem C08_record_wf : forall ops s, cwf s -> c_cur (crun s ops) < two64 -> cwf
 Proof. exact record_wf. Qed.
 Print Assumptions C08_record_wf.
 
-(* the executable oracle used on the implementation's observations accepts every model run *)
-Theorem C08_oracle_sound : forall c, c08_valid c -> c08_check c = true -> c08_oracle c = None.
+(* ---------- overlapping compactions (client Compact requests, the leader's compact loop) ----------
+   Every Compact call is a thread advanced one engine call at a time: setCompactRecord = Get, then the Commit of a
+   CAS / put-if-absent built against the value read; per range checkCompactRace = Get, then the Commit of an
+   unconditional Put. Labels of any number of threads interleave with each other and with writes and reads. *)
+
+(* C08_floor_monotone at full strength for this label system is REFUTED on the faithful model (finding C08-F1,
+   reproduced on the real code): compaction 103 is parked between checkCompactRace's Get and Put, compaction 111 runs
+   to completion, 103's Put lowers the floor from 111 to 103; List at 105 is then served *)
+Definition xs0 : xstate := mkX (mkC 112 0 None) [].
+Definition x_witness : list cop :=
+  [CSpawn 1 103 1; CThread 1 PhSetGet; CThread 1 PhSetCommit; CThread 1 PhRaceGet;
+   CSpawn 2 111 1; CThread 2 PhSetGet; CThread 2 PhSetCommit; CThread 2 PhRaceGet; CThread 2 PhRacePut].
+Theorem C08_floor_monotone_concurrent_refuted :
+  floor (xrun xs0 x_witness) = 111 /\ floor (xrun xs0 (x_witness ++ [CThread 1 PhRacePut])) = 103 /\
+  snd (xstep (xrun xs0 (x_witness ++ [CThread 1 PhRacePut])) (CList 105 0)) = ORead RData.
+Proof. vm_compute. repeat split. Qed.
+Print Assumptions C08_floor_monotone_concurrent_refuted.
+
+(* ... and holds for every interleaving in which no thread's unconditional Put lands on a floor above its revision
+   (puts_ok): in particular the steps of setCompactRecord never lower the floor, whatever other compactions do
+   between its Get and its Commit (the lost CAS makes the older request fail) *)
+Theorem C08_floor_monotone_concurrent_except_F1 : forall ops s,
+  xwf s -> c_cur (x_c (xrun s ops)) < two64 -> puts_ok s ops ->
+  xwf (xrun s ops) /\ floor s <= floor (xrun s ops).
+Proof. exact floor_monotone_x. Qed.
+Print Assumptions C08_floor_monotone_concurrent_except_F1.
+
+(* one step: the floor rises or stays, or the step is such a Put *)
+Theorem C08_concurrent_step : forall s op,
+  xwf s -> c_cur (x_c (fst (xstep s op))) < two64 ->
+  xwf (fst (xstep s op)) /\ (floor s <= floor (fst (xstep s op)) \/ lowering s op).
+Proof. exact xstep_spec. Qed.
+Print Assumptions C08_concurrent_step.
+
+(* a compaction thread that ends without error leaves the floor at or above its (clamped) revision *)
+Theorem C08_accepted_sets_floor_concurrent : forall s i ph s' h,
+  xwf s -> xstep s (CThread i ph) = (s', OCompact h COk) -> h <= floor s'.
+Proof. exact thread_accept. Qed.
+Print Assumptions C08_accepted_sets_floor_concurrent.
+
+(* the executable oracle used on the implementation's observations accepts every model run, or names finding 1
+   (only on a step that is the unconditional Put of a compaction thread) *)
+Theorem C08_oracle_sound : forall c, c08_valid c -> c08_check c = true -> c08_oracle c = None \/ c08_oracle c = Some 1.
 Proof. exact c08_oracle_sound. Qed.
 Print Assumptions C08_oracle_sound.
 
@@ -88,3 +129,18 @@ Proof. vm_compute. reflexivity. Qed.
 Example C08_ex_unconditional_put_lowers :
   floor_of (Some (be64 103)) < floor_of (c_rec (crun ex_s0 [CCompact 111 1 true])).
 Proof. vm_compute. reflexivity. Qed.
+
+(* overlapping setCompactRecord, both orders: the request whose CAS is lost fails, the floor keeps the other one *)
+Example C08_ex_overlap_low_parked :
+  let ops := [CSpawn 1 103 1; CThread 1 PhSetGet; CSpawn 2 111 1; CThread 2 PhSetGet; CThread 2 PhSetCommit; CThread 2 PhRaceGet; CThread 2 PhRacePut] in
+  snd (xstep (xrun xs0 ops) (CThread 1 PhSetCommit)) = OCompact 103 CErr /\
+  floor (fst (xstep (xrun xs0 ops) (CThread 1 PhSetCommit))) = 111 /\
+  snd (xstep (xrun xs0 ops) (CList 105 0)) = ORead RErr.
+Proof. vm_compute. repeat split. Qed.
+Example C08_ex_overlap_high_parked :
+  let ops := [CSpawn 1 111 1; CThread 1 PhSetGet; CSpawn 2 103 1; CThread 2 PhSetGet; CThread 2 PhSetCommit; CThread 2 PhRaceGet; CThread 2 PhRacePut] in
+  snd (xstep (xrun xs0 ops) (CThread 1 PhSetCommit)) = OCompact 111 CErr /\
+  floor (fst (xstep (xrun xs0 ops) (CThread 1 PhSetCommit))) = 103.
+Proof. vm_compute. repeat split. Qed.
+Example C08_ex_xwf : xwf xs0 /\ puts_ok xs0 x_witness.
+Proof. split; [split; [left; reflexivity|split; [vm_compute; reflexivity|constructor]]|]. vm_compute. repeat split; discriminate. Qed.
